@@ -384,7 +384,7 @@ func (g *FnGen) checkCallFrame(s *State, fc *FuncContract, env *Env, site string
 				g.cellSorts(cp.typ, sorts)
 			}
 			var cs []string
-			for k := range sorts {
+			for _, k := range sortedKeys(sorts) {
 				local := "false"
 				for _, tr := range touched {
 					local = or(local, eq(app("rid", "r"), app("rid", tr)))
@@ -439,6 +439,7 @@ func (g *FnGen) expandGhost(p *locPat) []*locPat {
 			names = append(names, n)
 		}
 	}
+	sort.Strings(names)
 	sort.Strings(names)
 	var out []*locPat
 	for _, n := range names {
